@@ -101,6 +101,13 @@ type ProbeRec struct {
 	HungUp   bool          `json:"hung_up,omitempty"` // the prober closed the connection before the (delayed) answer
 }
 
+// Passed: the probe was answered with a 2xx status, the prober took the answer, and the answer came
+// within the configured probe timeout (judged from the target's side: a prober that waits longer
+// than configured must not turn a late answer into a success).
+func (p ProbeRec) Passed(timeout time.Duration) bool {
+	return p.Ended && p.Accepted && p.Status >= 200 && p.Status <= 299 && p.End-p.Start <= timeout
+}
+
 type ReqRec struct {
 	ID      string        `json:"id"`
 	Target  string        `json:"target"`
